@@ -40,7 +40,7 @@ Proof. unfold hdl_ok, new_hdl. cbn [hd_append hd_flags]. intros Hx. apply andb_t
 
 Lemma get_data_ok C s slot file h : slots_ok s -> get_data C s slot file = Some h -> hdl_ok h.
 Proof.
-  intros Hs. unfold get_data. destruct (c_no_open C); [intros [= <-]; reflexivity|].
+  intros Hs. unfold get_data. destruct (c_no_open C); [intros [= <-]; intros Hx; discriminate Hx|].
   destruct (slots s slot) as [h0|] eqn:E; [|discriminate].
   destruct (hd_file h0 =? file); [|discriminate]. intros [= <-]. exact (Hs _ _ E).
 Qed.
@@ -52,7 +52,7 @@ Proof. intros Hh. unfold check_fd_flags. destruct (hd_flags h =? fl); [exact Hh|
 Lemma check_fd_flags_append h fl : hdl_ok h -> has fl O_APPEND = false -> hd_append (check_fd_flags h fl) = false.
 Proof.
   intros Hh Hna. unfold check_fd_flags. destruct (hd_flags h =? fl) eqn:E; [|exact Hna].
-  destruct (hd_append h) eqn:Ea; [|reflexivity]. specialize (Hh eq_refl).
+  destruct (hd_append h) eqn:Ea; [|reflexivity]. unfold hdl_ok in Hh. rewrite Ea in Hh. specialize (Hh eq_refl).
   assert (hd_flags h = fl) by lia. congruence.
 Qed.
 
@@ -66,6 +66,11 @@ Proof.
     destruct (fx_create (c_fx C) && c_seal C && has fl O_TRUNC); cbn [snd]; [exact Hs|].
     destruct (c_no_open C); cbn [snd]; [apply open_effect_ok; exact Hs|].
     apply set_slot_ok; [apply open_effect_ok; exact Hs|apply new_hdl_ok].
+  - destruct (get_data C s slot file) as [h0|] eqn:Eg; cbn [snd]; [|exact Hs].
+    assert (Hs1 : slots_ok (if c_no_open C then s else set_slot s slot (Some (check_fd_flags h0 rfl)))).
+    { destruct (c_no_open C); [exact Hs|]. apply set_slot_ok; [exact Hs|].
+      apply check_fd_flags_ok. exact (get_data_ok _ _ _ _ _ Hs Eg). }
+    destruct (hd_acc _ =? 1); cbn [snd]; exact Hs1.
   - destruct (get_data C s slot file) as [h0|] eqn:Eg; cbn [snd]; [|exact Hs].
     assert (Hs1 : slots_ok (if c_no_open C then s else set_slot s slot (Some (check_fd_flags h0 wfl)))).
     { destruct (c_no_open C); [exact Hs|]. apply set_slot_ok; [exact Hs|].
@@ -134,6 +139,8 @@ Proof.
   - destruct (has fl O_EXCL); cbn [snd]; [reflexivity|]. rewrite Hseal. unfold open_effect.
     destruct (has fl O_TRUNC); destruct (fx_create (c_fx C)); cbn in Hk |- *; try discriminate;
       destruct (c_no_open C); reflexivity.
+  - destruct (get_data C s slot file) as [h0|] eqn:Eg; cbn [snd]; [|reflexivity].
+    destruct (hd_acc _ =? 1); cbn [snd]; destruct (c_no_open C); reflexivity.
   - destruct (get_data C s slot file) as [h0|] eqn:Eg; cbn [snd]; [|reflexivity].
     rewrite Hseal.
     assert (Hsz : forall v, sizes (if c_no_open C then s else set_slot s slot (Some v)) f = sizes s f)
@@ -250,7 +257,7 @@ Proof. intros k h. cbn. discriminate. Qed.
 Lemma sealed_sizes_refuted : ~ sealed_sizes_full no_fixes.
 Proof.
   intros Hfull.
-  specialize (Hfull tie_host (mk_cfg true false no_fixes) eq_refl eq_refl tie_host_falloc_within
+  specialize (Hfull tie_host (mk_cfg true false no_fixes false) eq_refl eq_refl tie_host_falloc_within
                     [Open 0 0 (N.lor 2 O_TRUNC)] w_state w_state_ok 0).
   vm_compute in Hfull. discriminate.
 Qed.
@@ -260,14 +267,14 @@ Proof. intros H C Hs Hfx Hf. apply sealed_sizes_full_when_fixed; assumption. Qed
 
 (* the three witnesses of D10 evaluated in the model (file of 10 bytes) *)
 Lemma witness_open_trunc :
-  sizes (snd (run tie_host (mk_cfg true false no_fixes) w_state [Open 0 0 (N.lor 1 O_TRUNC)])) 0 = 0.
+  sizes (snd (run tie_host (mk_cfg true false no_fixes false) w_state [Open 0 0 (N.lor 1 O_TRUNC)])) 0 = 0.
 Proof. reflexivity. Qed.
 Lemma witness_create_trunc :
-  sizes (snd (run tie_host (mk_cfg true true no_fixes) w_state [Create 0 0 (N.lor 2 O_TRUNC)])) 0 = 0.
+  sizes (snd (run tie_host (mk_cfg true true no_fixes false) w_state [Create 0 0 (N.lor 2 O_TRUNC)])) 0 = 0.
 Proof. reflexivity. Qed.
 Lemma witness_write_append :
-  fst (run tie_host (mk_cfg true false no_fixes) w_state [Open 0 0 2; Write 0 0 0 4 (N.lor 2 O_APPEND)]) = [0; 0] /\
-  sizes (snd (run tie_host (mk_cfg true false no_fixes) w_state [Open 0 0 2; Write 0 0 0 4 (N.lor 2 O_APPEND)])) 0 = 14.
+  fst (run tie_host (mk_cfg true false no_fixes false) w_state [Open 0 0 2; Write 0 0 0 4 (N.lor 2 O_APPEND)]) = [0; 0] /\
+  sizes (snd (run tie_host (mk_cfg true false no_fixes false) w_state [Open 0 0 2; Write 0 0 0 4 (N.lor 2 O_APPEND)])) 0 = 14.
 Proof. split; reflexivity. Qed.
 
 (* ------------------------------------------------------------------ within the size: as unsealed *)
@@ -305,9 +312,9 @@ Proof.
   - exfalso. destruct Hop as [Ho|[Ho|Ho]]; rewrite Ho in E2; discriminate.
 Qed.
 
-Theorem within_size_same H no_open fx s r :
+Theorem within_size_same H no_open fx wb s r :
   size_bounded s -> stays_within s r ->
-  step H (mk_cfg true no_open fx) s r = step H (mk_cfg false no_open fx) s r.
+  step H (mk_cfg true no_open fx wb) s r = step H (mk_cfg false no_open fx wb) s r.
 Proof.
   intros Hb Hw.
   destruct r as [slot file fl|slot file fl|slot file rfl|slot file off len wfl|slot file mode off len|file ws ns|slot rfile];
@@ -336,13 +343,13 @@ Definition would_change (s : state) (r : req) : Prop :=
   | _ => False
   end.
 
-Theorem refused_no_effect H no_open fx s r :
+Theorem refused_no_effect H no_open fx wb s r :
   would_change s r ->
-  (get_data (mk_cfg true no_open fx) s (match r with Write k _ _ _ _ | Fallocate k _ _ _ _ => k | _ => 0 end)
+  (get_data (mk_cfg true no_open fx wb) s (match r with Write k _ _ _ _ | Fallocate k _ _ _ _ => k | _ => 0 end)
             (match r with Write _ f _ _ _ | Fallocate _ f _ _ _ => f | _ => 0 end) <> None \/
    match r with Setattr _ _ _ => True | _ => False end) ->
-  (fst (step H (mk_cfg true no_open fx) s r) = EPERM \/ fst (step H (mk_cfg true no_open fx) s r) = EINVAL) /\
-  forall f, sizes (snd (step H (mk_cfg true no_open fx) s r)) f = sizes s f.
+  (fst (step H (mk_cfg true no_open fx wb) s r) = EPERM \/ fst (step H (mk_cfg true no_open fx wb) s r) = EINVAL) /\
+  forall f, sizes (snd (step H (mk_cfg true no_open fx wb) s r)) f = sizes s f.
 Proof.
   intros Hw Hg.
   destruct r as [slot file fl|slot file fl|slot file rfl|slot file off len wfl|slot file mode off len|file ws ns|slot rfile];
